@@ -1,0 +1,9 @@
+//go:build verif
+
+package txpool
+
+// Verification hook (build tag verif): thin accessor to the unexported isChainSynced. No logic.
+
+func VerifIsChainSynced(nowTimestamp, blockTimestamp uint64) bool {
+	return isChainSynced(nowTimestamp, blockTimestamp)
+}
